@@ -54,7 +54,7 @@ def caps_bytes(c):
 def react(r, what=""):
     # "garbage": bytes that are no ManageSieve reply at all (then nothing more): like silence for a correct client
     return {"OK": b'OK "fine"\r\n', "NO": b'NO "refused"\r\n', "BYE": b'BYE "closing"\r\n', "silence": None,
-            "garbage": b'\x16\x03\x01 <html>502</html>\r\n* junk "OK"\r\n'}[r]
+            "garbage": b'\x16\x03\x01 <html>502</html>\r\n* junk "OK"\r\n', "reset": None}[r]
 
 
 def tlc_histories(cfg, simulate=None, depth=None, seed=None):
@@ -253,7 +253,32 @@ def replay(task):
                                     sock.eof = True          # the server closes after its answer
                         return out
                     s.server = opserver
-            res = M.call(getattr(c, meth), *args)
+                    s.reset = (r == "reset")
+            if r == "reset" and cur["sock"] is not None:
+                # a fresh connection is on offer, should the client decide to open one: whatever it writes there is
+                # logged under a new connection id (on which nobody ever authenticated)
+                sid = 100 + len(events)
+                used = []
+
+                def spare_server(w, sock, sid=sid, used=used):
+                    if not used:
+                        used.append(1)
+                        events.append(["open", sid])
+                    try:
+                        items = rfc5804.decode(w)
+                    except rfc5804.Malformed:
+                        events.append(["write", sid, "plain", "MALFORMED", ""])
+                        return b'NO "malformed"\r\n'
+                    for it in items:
+                        if it[0] == "cmd":
+                            events.append(["write", sid, "plain", it[1], ""])
+                    return b'NO "not authenticated"\r\n'
+                spare = M.FakeSocket(spare_server, channel="plain")
+                spare.push(caps_bytes({"sasl": ["PLAIN"], "tls": False}))
+                with M.Patched([spare]):
+                    res = M.call(getattr(c, meth), *args)
+            else:
+                res = M.call(getattr(c, meth), *args)
         if res[0] == "ret":
             kind = "true" if res[1] is True else ("false" if res[1] is False else "other")
         elif res[0] == "error":
@@ -392,6 +417,9 @@ CONFIGS = {
         {"maxcalls": 3, "prefs": [""], "tls": [True, False], "reactions": ["OK", "NO"],
          "ops": ["LISTSCRIPTS", "PUTSCRIPT"],
          "pairs": [{"pre": {"sasl": ["PLAIN", "LOGIN"], "tls": True}, "post": {"sasl": ["LOGIN"], "tls": False}}]},
+        # the connection is reset by the peer under an operation (the write fails)
+        {"maxcalls": 3, "prefs": [""], "tls": [False], "reactions": ["OK", "reset"], "ops": ["PUTSCRIPT", "LISTSCRIPTS"],
+         "pairs": [{"pre": {"sasl": ["PLAIN"], "tls": False}, "post": {"sasl": ["PLAIN"], "tls": False}}]},
         # capability values sent as literals, before and after TLS
         {"maxcalls": 2, "prefs": [""], "tls": [True, False], "reactions": ["OK", "NO"], "ops": ["LISTSCRIPTS"],
          "pairs": [{"pre": {"sasl": ["LOGIN"], "tls": True, "enc": "l"}, "post": {"sasl": ["PLAIN"], "tls": False, "enc": "l"}}]},
@@ -500,7 +528,10 @@ def run(prop, tier, seed):
         clause, at = got.get(i, ("", 0))
         if clause and clause in clauses:
             classify({"trace": ev, "clause": clause, "at": at, "script": tasks[i][0]}, clause)
+        resets = any(x[0] == "srv" and x[2] == "reset" for x in tasks[i][0])
         for e in ev:
+            if e[0] == "ret" and e[1].startswith("raise:ConnectionResetError") and resets:
+                continue        # the operating system's own error for a reset connection may surface as it is
             if e[0] == "ret" and e[1].startswith("raise:"):
                 classify({"trace": ev, "clause": "Raises", "at": 0, "script": tasks[i][0], "exc": e[1]}, "Raises:" + e[1][6:])
         if prop == "C16":
